@@ -135,10 +135,15 @@ def run(chk):
       chk.states = 1
     fut_ex = ex.submit(_exhaustive, chk, cfgs, max(2, workers_total // (len(cfgs) + 1)))
     sim_cfg = 'C17_sim_thorough.cfg' if thorough else 'C17_sim.cfg'
-    num, depth, batches = (9000, 24, 6) if thorough else (420, 18, 1)
-    fut_sim = ex.submit(lambda: [tlc.simulate('Scopes', sim_cfg, num=num // batches, depth=depth,
-                                              seed=chk.seed * 1000 + b + 1, name=f'C17-sim-{b}', timeout=2400)
-                                 for b in range(batches)])
+    num, depth, batches = (3000, 24, 6) if thorough else (420, 18, 1)
+
+    def simulate_all():
+      def one(b):
+        return tlc.simulate('Scopes', sim_cfg, num=num // batches, depth=depth, seed=chk.seed * 1000 + b + 1,
+                            name=f'C17-sim-{b}', timeout=2400)
+      with cf.ThreadPoolExecutor(max_workers=batches) as ex2:
+        return list(ex2.map(one, range(batches)))
+    fut_sim = ex.submit(simulate_all)
     sims = fut_sim.result()
     chk.notes['t_sim_done'] = round(time.time() - chk.t0, 1)
     fut_ex.result()
